@@ -9,7 +9,7 @@ def integrateOp (op : String) (j : Json) : Except String Json := do
   match op with
   | "integrate.sum" =>
     let rate ← jRats (← fld j "rate"); let tb ← jTimeBase (← fld j "dt")
-    return obj [("value", optRatJ (integrate rate tb)), ("duration", ratJ (duration tb))]
+    return obj [("value", optRatJ (integrateC rate tb)), ("duration", ratJ (duration tb))]
   | "integrate.acc" =>
     let rate ← jRats (← fld j "rate"); let dts ← jRats (← fld j "dt")
     return ratsJ (accumulate rate dts)
